@@ -217,9 +217,11 @@ def run_job(job, cfg, scratch, keep=False, variant=None):
         if not can: raise Undecided('harness has no vacuity canary')
         passed_can = [p for p in can if p['status'] == 'SUCCESS']
         if passed_can: raise Undecided('vacuous: canary passed (%s)' % passed_can[0]['desc'])
-        if job.unwind and any('unwinding assertion' in p['desc'] and p['status'] != 'SUCCESS' for p in obl):
-            bad = [p for p in obl if 'unwinding assertion' in p['desc'] and p['status'] != 'SUCCESS']
-            raise Undecided('unwinding bound %s too small: %s' % (job.unwind, bad[0]['id']))
+        unw = [p for p in obl if 'unwinding assertion' in p['desc'] and p['status'] != 'SUCCESS']
+        other_failed = [p for p in obl if p['status'] != 'SUCCESS' and 'unwinding assertion' not in p['desc']]
+        if unw and not other_failed:
+            raise Undecided('unwinding bound too small (and nothing else fails): %s' % unw[0]['id'])
+        if unw: obl = [p for p in obl if p not in unw]      # a loop running past its structural bound is reported through the obligations it breaks
         r.canaries = len(can)
         r.failed = [p for p in obl if p['status'] != 'SUCCESS']
         r.known_hit = [p for p in kn if p['status'] != 'SUCCESS']
